@@ -116,10 +116,11 @@ where
     #[cfg(probminhash_verif)]
     pub fn verif_registers(&self) -> (Vec<f64>, f64) {
         (
+            // f64::from : keeps compiling should the tracker ever hold a narrower float
             (0..self.m)
-                .map(|k| self.maxvaluetracker.get_value(k))
+                .map(|k| f64::from(self.maxvaluetracker.get_value(k)))
                 .collect(),
-            self.maxvaluetracker.get_max_value(),
+            f64::from(self.maxvaluetracker.get_max_value()),
         )
     }
 
@@ -381,10 +382,11 @@ where
     #[cfg(probminhash_verif)]
     pub fn verif_registers(&self) -> (Vec<f64>, f64) {
         (
+            // f64::from : keeps compiling should the tracker ever hold a narrower float
             (0..self.m)
-                .map(|k| self.maxvaluetracker.get_value(k))
+                .map(|k| f64::from(self.maxvaluetracker.get_value(k)))
                 .collect(),
-            self.maxvaluetracker.get_max_value(),
+            f64::from(self.maxvaluetracker.get_max_value()),
         )
     }
 
